@@ -16,6 +16,8 @@ Server.srv_value = long_term_key.srv_value().  (3) The reply states the version:
 wire_bytes(version) and VERS = supported_versions_wire() (ascending, containing draft-13) to the message that is encoded and
 then signed.
 The scan over the offered versions is left only when the entries are exhausted or with the match (no early break on another condition).
+"Always if ..": a conforming request lists VER < SRV < NONC < ZZZZ in wire order, and the decoder orders tags by declaration order of `Tag`; that the two agree, and
+the decoder's other acceptance conditions, are C05's tag-table / decoder rules - obligations of C12 as well.
 """
 NOT_DECIDED = "the other conditions of `always if` (size, framing, nonce) are C07's"
 TRUSTED = ["slice::chunks / Iterator::take semantics"]
